@@ -113,6 +113,12 @@ func TestVerifReplayDeviations(t *testing.T) {
 			{{"i2", 20, "b"}, {"i1", 10, "a"}},
 			{{"i1", 10, "a"}, {"i2", 20, "b"}, {"i3", 30, "a"}},
 			{{"i1", 10, "b"}, {"i2", 20, "a"}, {"i3", 30, "c"}},
+			// the order in which the store hands the intents of a path out is the order they were written in
+			{{"i1", 10, "a"}, {"i3", 30, "c"}, {"i2", 20, "b"}},
+			{{"i3", 30, "c"}, {"i1", 10, "a"}, {"i2", 20, "b"}},
+			{{"i2", 20, "b"}, {"i3", 30, "c"}, {"i1", 10, "a"}},
+			{{"i3", 30, "a"}, {"i2", 20, "a"}, {"i1", 10, "b"}},
+			{{"i1", 10, "a"}, {"i3", 30, "a"}, {"i2", 20, "b"}, {"i4", 40, "b"}},
 		}},
 		// a uint32 leaf whose intents are stored partly as strings: values are compared after normalisation
 		{[]string{"rangetestunsigned"}, "rangetestunsigned", []string{"u:20", "s:20"}, [][]vrdIntent{
